@@ -631,14 +631,8 @@ theorem gate_gradient_onehot [Zero K] [One K] (d i : Nat) (f : Bool) (hd : 0 < d
     (gradGate d i f : Option (List K)) = some (oneHot (hsSize d) (if f then d ^ 2 + i else i)) :=
   gradGate_eq d i f hd hi
 
-/-- C03.4 what happens for the implied block (POVM, flag on; m-process alike): the stacked vector of `var + t·e_i` is
-`(var + t·e_i) ++ (implied element)`, i.e. on the free entries the derivative is the one-hot vector … -/
-theorem povm_gradient_free_block_partial [Add K] [Sub K] [Mul K] [Zero K] [One K] (d : Nat) (sq t : K)
-    (v st' : List K) (i : Nat) (hst : povmStackedOfVar d sq (perturb v i t) true = some st') :
-    ∃ last', st' = perturb v i t ++ last' :=
-  povm_stacked_prefix d sq (perturb v i t) st' true hst
-
-/-- … but the implied last element changes by `−t·e_{i mod d²}`, which the one-hot `calc_gradient` ignores:
+/-- C03.4 concrete witness that the one-hot `calc_gradient` is not the full derivative when the constraint is built in
+(the implied last element changes by `−t·e_{i mod d²}`, see `povm_stacked_derivative`):
 concrete witness (`d = 1`, two outcomes, `var = [5]`, `t = 1`): the stacked vector moves from `[5, −4]` to `[6, −5]`,
 `vec(var) + gradient = [6, −4]`. -/
 theorem povm_gradient_is_not_derivative_on_implied_block :
@@ -647,6 +641,192 @@ theorem povm_gradient_is_not_derivative_on_implied_block :
     (gradPovm 1 2 0 true : Option (List Rat)) = some [1, 0] ∧
     vadd [5, -4] (lsmul (1 : Rat) [1, 0]) = [6, -4] := by
   decide +kernel
+
+/-- C03.4 state: `calc_gradient(i)` is the indicator of the entry the generated var→state index points at. -/
+theorem state_gradient_onehot_at_index [Zero K] [One K] (d i : Nat) (f : Bool)
+    (hi : (i : Int) < num_variables_qst d f) :
+    (gradState d i f : Option (List K)) =
+      some (oneHot (d ^ 2) (convert_var_index_to_state_index i f).toNat) := by
+  obtain ⟨hfree, _⟩ := state_v2o (d : Int) (i : Int) f (by omega) hi
+  unfold StateFree at hfree
+  unfold gradState
+  have hcast : (((d ^ 2 : Nat)) : Int) = (d : Int) ^ (2:Nat) := by push_cast; rfl
+  rw [natOf?_of_range _ _ (by cases f <;> simp at hfree <;> omega) (by rw [hcast]; exact hfree.2)]
+  rfl
+
+/-- C03.4 POVM: `calc_gradient(i)` is the indicator of the entry (element, coefficient) the generated index points at. -/
+theorem povm_gradient_onehot_at_index [Zero K] [One K] (d m i : Nat) (f : Bool) (hd : 0 < d)
+    (hi : (i : Int) < num_variables_povmt d m f) :
+    (gradPovm d m i f : Option (List K)) =
+      some (oneHot (m * d ^ 2) (flat2 ((d : Int) ^ (2:Nat))
+        (convert_var_index_to_povm_index d m ((d : Int) ^ (2:Nat)) i f)).toNat) := by
+  have hdI : (0 : Int) < (d : Int) := by exact_mod_cast hd
+  obtain ⟨hfree, _⟩ := povm_v2o (d : Int) (m : Int) (i : Int) f hdI (by omega) hi
+  unfold PovmFree at hfree
+  have hcast : (((d ^ 2 : Nat)) : Int) = (d : Int) ^ (2:Nat) := by push_cast; rfl
+  unfold gradPovm
+  dsimp only
+  rw [hcast]
+  generalize convert_var_index_to_povm_index (↑d) (↑m) ((d : Int) ^ (2:Nat)) (↑i) f = ix at *
+  obtain ⟨k, j⟩ := ix
+  simp only at hfree
+  have hkm : k < (m : Int) := by cases f <;> simp at hfree <;> omega
+  rw [natOf?_of_range k m hfree.1 hkm, natOf?_of_range j (d ^ 2) hfree.2.2.1 (by rw [hcast]; exact hfree.2.2.2)]
+  simp only [Option.bind_eq_bind, Option.bind_some, Option.some.injEq, flat2]
+  rw [toNat_lin k j (d ^ 2) hfree.1 hfree.2.2.1, hcast]
+
+/-- C03.4 gate, in the same form. -/
+theorem gate_gradient_onehot_at_index [Zero K] [One K] (d i : Nat) (f : Bool) (hd : 0 < d)
+    (hi : (i : Int) < num_variables_qpt d f) :
+    (gradGate d i f : Option (List K)) =
+      some (oneHot (hsSize d) (flat2 ((d : Int) ^ (2:Nat)) (convert_var_index_to_gate_index d i f)).toNat) := by
+  have hdI : (0 : Int) < (d : Int) := by exact_mod_cast hd
+  obtain ⟨hfree, _⟩ := gate_v2o (d : Int) (i : Int) f hdI (by omega) hi
+  unfold GateFree at hfree
+  have hcast : (((d ^ 2 : Nat)) : Int) = (d : Int) ^ (2:Nat) := by push_cast; rfl
+  unfold gradGate
+  dsimp only
+  generalize convert_var_index_to_gate_index (↑d) (↑i) f = ix at *
+  obtain ⟨r, c⟩ := ix
+  simp only at hfree
+  have hr0 : 0 ≤ r := by cases f <;> simp at hfree <;> omega
+  rw [natOf?_of_range r (d ^ 2) hr0 (by rw [hcast]; exact hfree.2.1),
+    natOf?_of_range c (d ^ 2) hfree.2.2.1 (by rw [hcast]; exact hfree.2.2.2)]
+  simp only [Option.bind_eq_bind, Option.bind_some, Option.some.injEq, flat2]
+  rw [toNat_lin r c (d ^ 2) hr0 hfree.2.2.1, hcast]
+
+/-- C03.4 measurement process: `calc_gradient(i)` is the indicator of the entry (outcome, row, col) the generated index points at. -/
+theorem mprocess_gradient_onehot_at_index [Zero K] [One K] (d m i : Nat) (f : Bool) (hd : 0 < d)
+    (hi : (i : Int) < num_variables_qmpt d m f) :
+    (gradMp d m i f : Option (List K)) =
+      some (oneHot (m * hsSize d) (flat3 ((d : Int) ^ (2:Nat))
+        (convert_var_index_to_mprocess_index d m ((d : Int) ^ (2:Nat)) i f)).toNat) := by
+  have hdI : (0 : Int) < (d : Int) := by exact_mod_cast hd
+  have hn : (0 : Int) < (d : Int) ^ (2:Nat) := Int.pow_pos hdI
+  have h4 : (d : Int) ^ (4:Nat) = (d : Int) ^ (2:Nat) * (d : Int) ^ (2:Nat) := by ring
+  have hcast : (((d ^ 2 : Nat)) : Int) = (d : Int) ^ (2:Nat) := by push_cast; rfl
+  have hHcast : ((hsSize d : Nat) : Int) = (d : Int) ^ (2:Nat) * (d : Int) ^ (2:Nat) := by
+    unfold hsSize; push_cast; rfl
+  have hfree := (mpN_v2o ((d : Int) ^ (2:Nat)) m i f hn (by omega) (by
+    unfold num_variables_qmpt at hi; rw [h4] at hi
+    cases f <;> simpa using hi)).1
+  unfold MpFreeN at hfree
+  unfold gradMp
+  dsimp only
+  rw [hcast, gen_mpV2O]
+  generalize mpV2O ((d : Int) ^ (2:Nat)) (↑m) (↑i) f = ix at *
+  obtain ⟨k, r, c⟩ := ix
+  simp only at hfree
+  obtain ⟨hk0, hkm, hr1, hrn, hc0, hcn⟩ := hfree
+  have hr0 : 0 ≤ r := by split at hr1 <;> omega
+  rw [natOf?_of_range k m hk0 hkm, natOf?_of_range r (d ^ 2) hr0 (by rw [hcast]; exact hrn),
+    natOf?_of_range c (d ^ 2) hc0 (by rw [hcast]; exact hcn)]
+  simp only [Option.bind_eq_bind, Option.bind_some, Option.some.injEq, flat3]
+  congr 1
+  have h : ((k.toNat * hsSize d + r.toNat * d ^ 2 + c.toNat : Nat) : Int) =
+      k * ((d : Int) ^ (2:Nat) * (d : Int) ^ (2:Nat)) + r * (d : Int) ^ (2:Nat) + c := by
+    push_cast
+    rw [Int.toNat_of_nonneg hk0, Int.toNat_of_nonneg hr0, Int.toNat_of_nonneg hc0, hHcast]
+  have hnn : 0 ≤ k * ((d : Int) ^ (2:Nat) * (d : Int) ^ (2:Nat)) + r * (d : Int) ^ (2:Nat) + c := by
+    have := Int.mul_nonneg hk0 (Int.le_of_lt (Int.mul_pos hn hn))
+    have := Int.mul_nonneg hr0 (Int.le_of_lt hn)
+    omega
+  omega
+
+/-- C03.4 POVM with the built-in constraint — the exact derivative of var ↦ stacked vector in coordinate `i`:
+the free entry `i` moves by `t` (the one-hot `calc_gradient`) AND the implied last element moves by `−t` in
+coefficient `i mod d²` (which `calc_gradient` does not contain). -/
+theorem povm_stacked_derivative [CommRing K] (d m : Nat) (sq t : K) (v st : List K) (i : Nat) (hd : 0 < d)
+    (hm : 2 ≤ m) (hlen : (v.length : Int) = num_variables_povmt d m true) (hi : i < v.length)
+    (hst : povmStackedOfVar d sq v true = some st) :
+    povmStackedOfVar d sq (perturb v i t) true =
+      some (vadd st (lsmul t (oneHot v.length i) ++ lsmul (-t) (oneHot (d ^ 2) (i % d ^ 2)))) := by
+  have hl := (nv_povmt d m v.length true (by omega)).1 hlen
+  simp only [↓reduceIte] at hl
+  obtain ⟨k, rfl⟩ : ∃ k, m = k + 2 := ⟨m - 2, by omega⟩
+  have e : k + 2 - 1 = k + 1 := by omega
+  rw [e] at hl
+  have h1 : 1 ≤ d ^ 2 := Nat.pow_pos hd
+  have hpl : (perturb v i t).length = (k + 1) * d ^ 2 := by simp [perturb, vadd, lsmul, oneHot, hl]
+  rw [povmStacked_explicit d k sq v hd hl] at hst
+  injection hst with hst
+  subst hst
+  rw [povmStacked_explicit d k sq _ hd hpl]
+  congr 1
+  rw [vadd_append _ _ _ _ (by simp [lsmul, oneHot])]
+  congr 1
+  unfold povmLast colSum
+  have hfold := foldl_rows_perturb (d ^ 2) (k + 1) h1 v (List.replicate (d ^ 2) 0) i t hl (by omega)
+  unfold perturb
+  rw [hl, hfold, vsub_vadd_smul]
+
+/-- C03.4 measurement process with the built-in constraint — the exact derivative of var ↦ stacked vector in coordinate `i`:
+the free entry moves by `t` (the one-hot `calc_gradient`), and, when variable `i` lies in the FIRST ROW of a non-last HS matrix
+(`i < d⁴(m−1)`, `i mod d⁴ < d²`), the implied first row of the last HS moves by `−t` in column `i mod d⁴`; otherwise nothing else moves. -/
+theorem mprocess_stacked_derivative [CommRing K] (d m : Nat) (t : K) (v st : List K) (i : Nat) (hd : 0 < d) (hm : 1 ≤ m)
+    (hlen : (v.length : Int) = num_variables_qmpt d m true)
+    (hst : mpStackedOfVar d v true = some st) :
+    mpStackedOfVar d (perturb v i t) true =
+      some (vadd st
+        ((lsmul t (oneHot v.length i)).take (hsSize d * (m - 1)) ++
+          lsmul (-t) (if i < hsSize d * (m - 1) ∧ i % hsSize d < d ^ 2 then oneHot (d ^ 2) (i % hsSize d)
+                      else List.replicate (d ^ 2) 0) ++
+          (lsmul t (oneHot v.length i)).drop (hsSize d * (m - 1)))) := by
+  have hl := (nv_qmpt d m v.length true hd hm).1 hlen
+  simp only [↓reduceIte] at hl
+  obtain ⟨k, rfl⟩ : ∃ k, m = k + 1 := ⟨m - 1, by omega⟩
+  simp only [Nat.add_sub_cancel] at hl ⊢
+  have h1 : 1 ≤ d ^ 2 := Nat.pow_pos hd
+  have hH : 0 < hsSize d := by unfold hsSize; exact Nat.mul_pos h1 h1
+  have hd0 : d ≠ 0 := by omega
+  have hlt : (d ^ 2 - 1) * d ^ 2 < hsSize d := by
+    unfold hsSize; exact Nat.mul_lt_mul_of_pos_right (by omega) (by omega)
+  have hdiv : v.length / hsSize d = k := by
+    rw [hl, Nat.mul_comm k, Nat.mul_add_div hH, Nat.div_eq_of_lt hlt]; rfl
+  have hple : hsSize d * k ≤ v.length := by rw [hl, Nat.mul_comm]; omega
+  have hpl : (perturb v i t).length = v.length := by simp [perturb, vadd, lsmul, oneHot]
+  have hlastl : (mpLast d k v).length = d ^ 2 := by
+    apply mpLast_length d k v hd
+    intro o ho
+    have : hsSize d * (o + 1) ≤ hsSize d * k := Nat.mul_le_mul_left _ (by omega)
+    have h2 : d ^ 2 ≤ hsSize d := by unfold hsSize; exact Nat.le_mul_of_pos_left _ h1
+    rw [Nat.mul_succ] at this; omega
+  simp only [mpStackedOfVar, hd0, ↓reduceIte, hdiv, Nat.add_sub_cancel, Option.some.injEq] at hst
+  subst hst
+  simp only [mpStackedOfVar, hd0, ↓reduceIte, hpl, hdiv, Nat.add_sub_cancel, Option.some.injEq]
+  unfold perturb
+  rw [take_vadd, drop_vadd]
+  unfold mpLast
+  rw [firstRowSum_perturb d k hd v i t hple, vsub_vadd_smul]
+  have htl : (v.take (hsSize d * k)).length = ((lsmul t (oneHot v.length i : List K)).take (hsSize d * k)).length := by
+    simp [lsmul, oneHot]
+  simp only [List.append_assoc]
+  rw [vadd_append _ _ _ _ htl, vadd_append _ _ _ _ (by
+    have := hlastl; unfold mpLast at this; rw [this]; split <;> simp [lsmul, oneHot])]
+
+/-- C03.4 without the built-in constraint the stacked vector IS the variable vector (POVM, m-process; state and gate are
+`state_gradient_is_derivative` / `gate_gradient_is_derivative`): the derivative in coordinate `i` is `e_i`, the one-hot gradient. -/
+theorem stacked_derivative_flag_off [CommRing K] (d : Nat) (sq t : K) (v : List K) (i : Nat) (hd : 0 < d) :
+    povmStackedOfVar d sq (perturb v i t) false = some (vadd v (lsmul t (oneHot v.length i))) ∧
+    mpStackedOfVar d (perturb v i t) false = some (vadd v (lsmul t (oneHot v.length i))) := by
+  have hd0 : d ≠ 0 := by omega
+  simp [povmStackedOfVar, mpStackedOfVar, hd0, perturb]
+
+example : (gradMp 1 2 0 true : Option (List Rat)) = some [1, 0] := by decide +kernel
+example : (((([5] : List Rat)).length : Int) = num_variables_povmt 1 2 true) ∧
+    povmStackedOfVar 1 (1 : Rat) [5] true = some [5, -4] := by decide +kernel
+example : (((([3] : List Rat)).length : Int) = num_variables_qmpt 1 2 true) ∧
+    mpStackedOfVar 1 ([3] : List Rat) true = some [3, -2] ∧
+    mpStackedOfVar 1 (perturb ([3] : List Rat) 0 1) true = some [4, -3] := by decide +kernel
+
+/-- C03.1 on the GENERATED flag resolution of `generate_from_var` (base class and the MProcess override): an explicitly
+requested parametrisation — `True` or `False` — is used as given; only `None` falls back to the template object's flag. -/
+theorem generate_from_var_flag_resolution (template b : Bool) :
+    resolveFlag template (some b) = b ∧ resolveFlag template none = template ∧
+    resolveFlagMp template (some b) = b ∧ resolveFlagMp template none = template := by
+  simp [resolveFlag, resolveFlagMp, generate_from_var_flag, generate_from_var_flag_mprocess]
+
+example : resolveFlag true (some false) = false ∧ resolveFlagMp true none = true := by decide
 
 /-! ## clause "across a whole set of operations" -/
 
@@ -733,7 +913,6 @@ example : ((List.replicate 12 (1 : Rat)).length : Int) = num_variables_qpt 2 tru
 example : ((List.replicate 8 (1 : Rat)).length : Int) = num_variables_povmt 2 3 true := by decide
 example : ((List.replicate 28 (1 : Rat)).length : Int) = num_variables_qmpt 2 2 true := by decide
 example : vecsOfVar 1 (1 : Rat) [5, 7] true = some [[5], [7], [-11]] := by decide +kernel
-example : resolveFlag true (some false) = false ∧ resolveFlag true none = true := by decide
 example : totalFromLocal ⟨[3, 3], [12], [4, 8], [28]⟩ 2 1 5 = some 27 := by decide
 example : localFromTotal ⟨[3, 3], [12], [4, 8], [28]⟩ 27 = some (2, 1, 5) := by decide
 
